@@ -5,7 +5,8 @@ from collections import Counter
 sys.path.insert(0, os.path.dirname(os.path.dirname(os.path.abspath(__file__))))
 from pyvc.runner import verify_units
 from contracts.registry import GROUPS, BUDGETS
-KNOWN = [".after_async_wait_blocked.C08.allowed_to_block", ".cover."]
+import json as _json
+KNOWN = [".cover."] + [p for f in _json.load(open(os.path.join(os.path.dirname(os.path.dirname(os.path.abspath(__file__))), "known_findings.json")))["findings"] if f["status"] == "open" for p in f.get("obligation_patterns", [])]
 def main():
     import json
     units = []
